@@ -1,5 +1,7 @@
 import CobraModel.Model.DictIO
 import CobraModel.Lemmas.Core
+import CobraModel.Lemmas.DictScheme
+import CobraModel.Gen.DictKeys
 /-!
 # C11 — JSON, YAML, dict and pickle round trips return the same model
 
@@ -34,6 +36,46 @@ theorem old_loader_rejected_high_lower_bound :
     fromDictOld (toDict ⟨"r", "", .fin 2000, .fin 3000, [], "", 0, ""⟩) = none ∧
     fromDict (toDict ⟨"r", "", .fin 2000, .fin 3000, [], "", 0, ""⟩) = some ⟨"r", "", .fin 2000, .fin 3000, [], "", 0, ""⟩ := by
   constructor <;> decide +kernel
+
+/-! ### the key scheme shared by reactions, metabolites, genes and the model (tables generated from cobra/io/dict.py) -/
+
+open Gen.DictKeys in
+/-- no table lists a key twice (a repeated key would be written twice and the later one would win on loading) -/
+theorem tables_have_no_repeated_key :
+    reaction.keys.Nodup ∧ metabolite.keys.Nodup ∧ gene.keys.Nodup ∧ Gen.DictKeys.model.keys.Nodup := by decide
+
+open Gen.DictKeys in
+/-- every attribute the property lists is a key of its table — as the tables stand in the source now -/
+theorem listed_attributes_are_keys :
+    (["id", "name", "metabolites", "lower_bound", "upper_bound", "gene_reaction_rule", "objective_coefficient", "subsystem", "notes",
+      "annotation"].all (· ∈ reaction.keys)) = true ∧
+    (["id", "name", "compartment", "charge", "formula", "notes", "annotation"].all (· ∈ metabolite.keys)) = true ∧
+    (["id", "name", "notes", "annotation"].all (· ∈ gene.keys)) = true ∧
+    (["id", "name", "reactions", "metabolites", "genes", "objective_direction", "compartments", "notes", "annotation"].all
+      (· ∈ Gen.DictKeys.model.keys)) = true := by decide
+
+open Gen.DictKeys in
+/-- **every listed attribute of every kind of object survives save -> load**, whatever its value, and a second save writes the same dictionary -/
+theorem scheme_roundtrip (a : String → DV) (fb : DV) :
+    (∀ k ∈ reaction.keys, DictScheme.fromDict reaction fb (DictScheme.toDict reaction a) k = a k) ∧
+    (∀ k ∈ metabolite.keys, DictScheme.fromDict metabolite fb (DictScheme.toDict metabolite a) k = a k) ∧
+    (∀ k ∈ gene.keys, DictScheme.fromDict gene fb (DictScheme.toDict gene a) k = a k) ∧
+    (∀ k ∈ Gen.DictKeys.model.keys, DictScheme.fromDict Gen.DictKeys.model fb (DictScheme.toDict Gen.DictKeys.model a) k = a k) :=
+  ⟨fun k hk => DictScheme.roundtrip _ fb tables_have_no_repeated_key.1 a k hk,
+   fun k hk => DictScheme.roundtrip _ fb tables_have_no_repeated_key.2.1 a k hk,
+   fun k hk => DictScheme.roundtrip _ fb tables_have_no_repeated_key.2.2.1 a k hk,
+   fun k hk => DictScheme.roundtrip _ fb tables_have_no_repeated_key.2.2.2 a k hk⟩
+
+open Gen.DictKeys in
+theorem scheme_idempotent (a : String → DV) (fb : DV) :
+    DictScheme.toDict Gen.DictKeys.model (DictScheme.fromDict Gen.DictKeys.model fb (DictScheme.toDict Gen.DictKeys.model a)) =
+      DictScheme.toDict Gen.DictKeys.model a :=
+  DictScheme.toDict_idempotent _ fb tables_have_no_repeated_key.2.2.2 a
+
+/-- a minimisation model keeps its direction: the key is written because it differs from the default, and read back -/
+example : DictScheme.fromDict Gen.DictKeys.model .none
+    (DictScheme.toDict Gen.DictKeys.model (fun k => if k = "objective_direction" then .str "min" else .none)) "objective_direction" = .str "min" := by
+  decide
 
 example : fromDict (toDict ⟨"EX_glc(e)", "exchange", .ninf, .fin 5, [("glc__D_e", -1)], "b0001 and (g1 or g2)", 1 / 2, "Transport"⟩)
     = some ⟨"EX_glc(e)", "exchange", .ninf, .fin 5, [("glc__D_e", -1)], "b0001 and (g1 or g2)", 1 / 2, "Transport"⟩ := by
